@@ -135,6 +135,7 @@ fn b(d: u32, k: u32) -> String {
 ///   09 a n <n bytes> STATICCALL precompile/address 0x..a; slot f0 = success+1, f1 = returndatasize+1, f2 = first word
 ///   0a            INVALID opcode (halt, consumes all gas)
 ///   0b a20 n <n bytes> CALL the 20-byte address with those bytes (result ignored)
+///   0c s          SSTORE s := NUMBER (the block number the code observes)
 ///   10..14 t..    LOG0..LOG4 with 1-byte topics, no data
 ///   anything else STOP
 pub fn cell_runtime() -> Vec<u8> {
@@ -155,6 +156,7 @@ cont:
   DUP1 #9 EQ @op_static JUMPI
   DUP1 #10 EQ @op_invalid JUMPI
   DUP1 #11 EQ @op_callext JUMPI
+  DUP1 #12 EQ @op_number JUMPI
   DUP1 #0x10 EQ @op_log0 JUMPI
   DUP1 #0x11 EQ @op_log1 JUMPI
   DUP1 #0x12 EQ @op_log2 JUMPI
@@ -180,6 +182,8 @@ burndone:
   POP #2 ADD @loop JUMP
 op_ret:
   POP {b11} SLOAD #0 MSTORE #32 #0 RETURN
+op_number:
+  POP NUMBER {b21} SSTORE #2 ADD @loop JUMP
 op_selfdestruct:
   ADDRESS SELFDESTRUCT
 op_invalid:
@@ -280,6 +284,7 @@ pub fn encode_ops(ops: &serde_json::Value) -> Vec<u8> {
                 out.extend_from_slice(&data);
             }
             "invalid" => out.push(10),
+            "number" => out.extend_from_slice(&[12, byte("s")]),
             "log" => {
                 let topics = op["t"].as_array().cloned().unwrap_or_default();
                 out.push(0x10 + topics.len() as u8);
